@@ -5,6 +5,10 @@ CLAIMED = {
             "static analysis: for every registered aten handler and every path, the (payload, scale) terms, guards, fallbacks and refusals are checked against the algebraic class of the op; an induction step over op programs of any depth", NOTE),
     "C06": ("DESIGN.md §3 C06", "term provenance of size/stride/qtype/axis in every quantized-tensor construction; wrapper-constructor and flatten/unflatten agreement checks",
             "static analysis: every construction site of a quantized tensor (handlers, moves, quantizers, wrappers, unflatten) carries geometry and fields from the payload it wraps", NOTE),
+    "C12": ("DESIGN.md §3 C12", "value provenance (def-use) of the momentum and buffers in the calibration hooks + polynomial normal form of the EMA term",
+            "static analysis: the momentum reaching each update is self.momentum (single definition), the EMA helper is the required polynomial, both hooks measure the right tensor with absmax_scale and store into the matching buffer: covers every batch history", NOTE),
+    "C13": ("DESIGN.md §3 C13", "acquire/release pairing over all paths of __enter__/__exit__, who-may-call check, whole-package call graph with external write-effect analysis from the inference and quantization entry points",
+            "static analysis: every path of __exit__ releases every handle acquired by __enter__ regardless of exception arguments; no external write effect reachable from inference entry points; in-place tensor ops only on fresh values in the quantization closure", NOTE),
 }
 PENDING = "rule set under construction in this session (fail-closed: not claimed until its check passes on the unchanged tree)"
-NOT_APPLICABLE = {k: PENDING for k in ["C01","C02","C03","C04","C07","C08","C09","C10","C11","C12","C13","C14","C15","C16"]}
+NOT_APPLICABLE = {k: PENDING for k in ["C01","C02","C03","C04","C07","C08","C09","C10","C11","C14","C15","C16"]}
